@@ -9,10 +9,15 @@ Text protocol for the parse models.
   tok ::= s:<hex> | S | w:<hex> | , | : | o | e | x
   ps scan slice|map <hex text>       → toks <tok>* | ood        (character-level scanner model, ASCII text)
   ps quote <hex text>                → ok <hex text> | ood      (strconv.Quote, ASCII)
+  ps dur <hex text>                  → ok <int> | err | ood     (time.ParseDuration, bytes)
+  ps durfmt <int>                    → ok <hex text>            (time.Duration.String)
+  ps bool <hex text>                 → ok true|false | err      (strconv.ParseBool)
+  ps text slice|set|map|mmap <hex>   → ok … | err | ood         (text to value: scanner model, then the state machines)
 -/
 import DialsModel.Model.ParseInt
 import DialsModel.Model.Split
 import DialsModel.Model.Scan
+import DialsModel.Model.Duration
 import DialsModel.Model.Proto
 
 namespace Dials.Parse
@@ -99,6 +104,36 @@ def handlePs : List String → String
       match scanText (what == "map") s with
       | some ts => "toks " ++ String.intercalate " " (ts.map tokOut)
       | none => "ood"
+    | none => "bad-op"
+  | ["text", what, h] =>
+    match hexDecode h with
+    | some s =>
+      if !allAscii s then "ood" else
+      match what with
+      | "slice" => (sliceText s).elim "ood" listOut
+      | "set" => (setText s).elim "ood" listOut
+      | "map" => (mapText s).elim "ood" pairsOut
+      | "mmap" => (multiMapText s).elim "ood" pairsOut
+      | _ => "bad-op"
+    | none => "bad-op"
+  | ["dur", h] =>
+    match hexDecode h with
+    | some s =>
+      match parseDuration s with
+      | .ok d => s!"ok {d}"
+      | .err => "err"
+      | .ood => "ood"
+    | none => "bad-op"
+  | ["durfmt", v] =>
+    match v.toInt? with
+    | some v => "ok " ++ hexEnc (fmtDuration v)
+    | none => "bad-op"
+  | ["bool", h] =>
+    match hexDecode h with
+    | some s =>
+      match parseBool s with
+      | some b => s!"ok {b}"
+      | none => "err"
     | none => "bad-op"
   | ["quote", h] =>
     match hexDecode h with
